@@ -116,7 +116,8 @@ def coq_build(targets, timeout):
     """make the given .vo targets; returns (ok, log)"""
     with Lock("coq"):
         coq_makefile()
-        rc, out = run(["make", "-j", str(NPROC)] + targets, cwd=COQ, timeout=timeout)
+        # -k: when a proof no longer checks, still build what does not depend on it (the correspondence library)
+        rc, out = run(["make", "-k", "-j", str(NPROC)] + targets, cwd=COQ, timeout=timeout)
     return rc == 0, out
 
 
